@@ -23,7 +23,7 @@ func main() {
 			continue
 		}
 		for _, m := range p.Members {
-			if f, ok := m.(*ssa.Function); ok && f.Name() == os.Args[2] {
+			if f, ok := m.(*ssa.Function); ok && f.Name() == os.Args[2] && len(os.Args) <= 3 {
 				f.WriteTo(os.Stdout)
 			}
 		}
